@@ -220,7 +220,8 @@ def output (dt : α) (s2 : RodasState α) : RodasState α :=
 
 def finish (s3 : RodasState α) : RodasState α :=
   let done1 := (s3.T.length - 1) == 10000 && !E.dense
-  let done2 := E.O.lt (E.O.abs (E.O.sub E.tend s3.t)) E.uround || s3.stop
+  -- `t >= tend or (opt.fix_h and abs(tend - t) < uround) or stop`
+  let done2 := E.O.le E.tend s3.t || (E.opt.fixH && E.O.lt (E.O.abs (E.O.sub E.tend s3.t)) E.uround) || s3.stop
   { s3 with done := done1 || done2, facmax := E.opt.fac2 }
 
 def accept (s : RodasState α) : RodasState α :=
